@@ -368,9 +368,15 @@ type gresult struct {
 // caps of one graph search: a change that makes every prefix a distinct state (e.g. an object that
 // stores its input text) must end in an honest "not exhaustive", not in an endless run
 var (
-	graphMaxStates = int64(6_000_000)
-	graphMaxTime   = 20 * time.Minute
+	graphMaxStates = int64(1_500_000)
+	graphMaxTime   = 4 * time.Minute
 )
+
+func setGraphCaps(thorough bool) {
+	if thorough {
+		graphMaxStates, graphMaxTime = 12_000_000, 30*time.Minute
+	}
+}
 
 func splitPath(ver int, s string) []string {
 	if s == "" && ver == 2 {
@@ -409,7 +415,7 @@ func explore(r *ev.Run, G *gprops, gs *gstats, cfg graphCfg) gresult {
 		if _, dup := seen.LoadOrStore(key(recv, &m), true); !dup {
 			frontier = append(frontier, node{s})
 			res.states++
-			if G.total {
+			if G.total || G.accept || G.classify {
 				nilReceiver(r, cfg.ver, cfg.level, s)
 			}
 		}
@@ -443,7 +449,7 @@ func explore(r *ev.Run, G *gprops, gs *gstats, cfg graphCfg) gresult {
 					continue
 				}
 				lstates++
-				if G.total {
+				if G.total || G.accept || G.classify {
 					nilReceiver(r, cfg.ver, cfg.level, s)
 				}
 				if !cfg.expand(&m) {
@@ -727,6 +733,7 @@ func graphConfigs(thorough bool, levels3, levels2 []int) []graphCfg {
 
 // runGraphs explores the configurations and records the results.
 func runGraphs(r *ev.Run, G *gprops, gs *gstats, cfgs []graphCfg) {
+	setGraphCaps(r.Tier == "thorough")
 	for _, c := range cfgs {
 		c := c
 		r.Phase("graph "+c.name, func() { addResult(r, c.name, explore(r, G, gs, c)) })
